@@ -1,37 +1,36 @@
 (* C30 — registry views enforce access and rejected writes change nothing.
    Property theorems only. Model: models/Registry.v (registry/registry.go + registry/transaction.go); the schema is an
-   arbitrary predicate `valid`. `allowed acc rules req p`: p is the filled storage path of a rule of the view that
-   matches the request req and grants access acc.
-   Scope of the model: View.Set (incl. {placeholders} left in the unmatched suffix, filled from the keys of the value, and
-   the order-dependent case as a relation), View.Get (incl. placeholders), View.Unset for literal storage paths,
-   JSONDataBag, Transaction. Still outside (RUnsupported): View.Unset through an unfilled placeholder, and a Set whose
-   suffix placeholder is already filled in the storage path (same placeholder name twice in one request pattern: every
-   candidate goes to the same storage path and map order decides). Not proved: what Get of the SAME prefix request
-   returns when several rules match (merge of namespaces); see C30_read_after_write_same_request_partial for what is proved. *)
+   arbitrary predicate `valid`.
+   The model as FUNCTIONS (tied to the real code step by step): View.Set incl. {placeholders} left in the unmatched
+   suffix (filled from the keys of the value), View.Get incl. placeholders, View.Unset incl. unfilled placeholders
+   (match-all sub-keys of JSONDataBag.Unset), JSONDataBag, Transaction (New / Set / Unset / Get / Commit), bare-databag Set.
+   The model as a RELATION (rstep / rsteps / via_view; what the theorems about whole histories quantify over): the same,
+   plus every outcome of the Sets whose outcome the real code leaves to Go map iteration order:
+   (i) order-dependent suffixes (two non-empty unmatched suffixes, one a prefix of the other up to placeholders):
+       BadRequest recording nothing, or ROk recording exactly the model's writes;
+   (ii) the class the model does not determine (`determined` is false): a suffix placeholder that is already filled in
+       the storage path (same placeholder name twice in one request pattern, so that all candidates go to one storage
+       path) or a storage placeholder the request pattern never binds (registry.New rejects those views): any answer and
+       any recorded writes, except that a rejected Set records nothing.
+   `allowed_g acc rules req p`: p is an instance of the filled storage path of a rule of the view that matches the request
+   req and grants access acc. Values are JSON trees of objects and opaque scalars: ARRAYS ARE NOT MODELLED (theorems and
+   tie are about maps only). *)
 From Coq Require Import List NArith ZArith Bool.
 Import ListNotations.
 Require Import V.lib.JsonTree V.models.Registry V.proofs.RegistryProofs.
 Open Scope N_scope.
 
-(* every databag path written by View.Set / View.Unset is the storage path of a matching WRITEABLE rule
-   (read-only rules are never written) *)
-Theorem C30_write_paths_allowed_partial : forall rules req,
-  (forall v ws p x, set_writes rules req v = (ROk, ws) -> In (p, x) ws -> allowed writeable rules req p) /\
-  (forall ps p, unset_paths rules req = (ROk, ps) -> In p ps -> allowed writeable rules req p).
-Proof. intros rules req. split; [exact (write_paths_allowed rules req)|exact (unset_paths_allowed rules req)]. Qed.
-Print Assumptions C30_write_paths_allowed_partial.
-
-(* the same for EVERY Set the model covers - placeholders of the unmatched suffix filled from the value's keys, and the
-   order-dependent Sets (whatever the implementation's choice, the writes are these): every written path is an instance
-   of the filled storage path of a matching writeable rule *)
-Theorem C30_set_paths_allowed : forall rules req v ws p x,
-  (set_writes_g rules req v = (ROk, ws) \/ (exists r, set_class rules req v = SDet r ws) \/
-   (exists m, set_class rules req v = SEither m ws)) ->
-  In (p, x) ws -> allowed_g writeable rules req p.
-Proof.
-  intros rules req v ws p x [H|H] I; [eapply write_paths_allowed_g; eauto|eapply set_class_allowed; eauto].
-Qed.
-Print Assumptions C30_set_paths_allowed.
+(* every databag path a view writes is (an instance of) the filled storage path of a matching WRITEABLE rule - read-only
+   rules are never written. Sets: every outcome of every Set the model determines (classes (i) included; class (ii) is
+   exactly what `determined` excludes). Unsets: all of them; an Unset path is the rendered storage path itself, an
+   unfilled placeholder staying in it as a match-all sub-key. *)
+Theorem C30_write_paths_allowed : forall rules req,
+  (forall v ws p x, set_outcome rules req v (ROk, ws) -> determined rules req v -> In (p, x) ws ->
+                    allowed_g writeable rules req p) /\
+  (forall ps p, unset_paths_g rules req = (ROk, ps) -> In p ps ->
+                exists r sp sf, In r rules /\ writeable r = true /\ match_rule req r = Some (sp, sf) /\ p = parts_key sp).
+Proof. intros rules req. split; [exact (outcome_paths_allowed rules req)|exact (unset_paths_allowed_g rules req)]. Qed.
+Print Assumptions C30_write_paths_allowed.
 
 (* View.Get depends on the databag only through storage paths of matching READABLE rules (non-interference form:
    two databags that agree on those paths give the same answer) - write-only data never leaks. Both forms of View.Get
@@ -44,33 +43,49 @@ Theorem C30_read_paths_allowed : forall rules req,
 Proof. intros rules req. split; [exact (read_paths_allowed rules req)|exact (read_paths_allowed_ph rules req)]. Qed.
 Print Assumptions C30_read_paths_allowed.
 
-(* at the transactional entry point a rejected request (no matching rule, bad value, unused branch, failing delta,
-   schema violation at commit) leaves the committed databag unchanged; an accepted one leaves a valid databag; and in
-   any history only a successful Commit changes the committed databag *)
-Theorem C30_rejected_leaves_committed_unchanged_partial : forall valid rules,
-  (forall committed req v b, set_via_view valid rules committed req v = (b, false) -> b = committed) /\
-  (forall committed req v b, set_via_view valid rules committed req v = (b, true) -> valid (Obj b) = true) /\
-  (forall st o, st_bag (fst (step valid rules st o)) = st_bag st \/
-     exists i t b, o = OCommit i /\ nth_error (st_txs st) i = Some t /\ tx_commit valid t (st_bag st) = Some b /\
-                   st_bag (fst (step valid rules st o)) = b).
+(* rejected writes change nothing - over the whole transaction model (relation):
+   (1) the entry point (new transaction, Set or Unset through the view, commit only on success), with EVERY outcome the
+       Set may have: rejected (no matching rule, bad value, unused branch, order-dependent rejection, failing delta,
+       schema violation at commit) => the committed databag is unchanged; accepted => the new databag is valid;
+   (2) every history (any sequence of New / Set / Unset / Get / Commit on any number of transactions, every outcome of
+       the Sets): if no Commit reported success the committed databag is what it was, and a successful Commit publishes
+       a valid databag;
+   (3) the functions used for the tie are instances of the relation whenever the Set is not order-dependent.
+   The one place where a rejected View.Set DOES leave data behind - a bare databag, no transaction - is
+   C30_bare_bag_partial_refuted below; the relation has no such step because registry.Transaction only records deltas. *)
+Theorem C30_rejected_leaves_committed_unchanged : forall valid rules,
+  (forall committed req v b ok, via_view valid rules committed req v (b, ok) ->
+     (ok = false -> b = committed) /\ (ok = true -> valid (Obj b) = true)) /\
+  (forall st steps st', rsteps valid rules st steps st' ->
+     (forall o b0, In (o, BBag true b0) steps -> forall i, o <> OCommit i) -> st_bag st' = st_bag st) /\
+  (forall st o st' b, rstep valid rules st o st' b ->
+     st_bag st' = st_bag st \/
+     exists i t b0, o = OCommit i /\ nth_error (st_txs st) i = Some t /\ tx_commit valid t (st_bag st) = Some b0 /\
+                    st_bag st' = b0 /\ valid (Obj b0) = true /\ b = BBag true b0) /\
+  (forall st o, (forall i req v, o = OSet i req v -> is_either rules req v = None) ->
+     rstep valid rules st o (fst (step valid rules st o)) (snd (step valid rules st o))) /\
+  (forall committed req v, is_either rules req v = None ->
+     via_view valid rules committed req v (set_via_view valid rules committed req v)).
 Proof.
-  intros valid rules. split; [exact (rejected_unchanged valid rules)|].
-  split; [exact (accepted_is_valid valid rules)|exact (only_commit_publishes valid rules)].
+  intros valid rules. split; [exact (via_view_rejected valid rules)|].
+  split; [exact (rejected_history_unchanged valid rules)|]. split; [exact (rstep_publishes valid rules)|].
+  split; [exact (step_is_rstep valid rules)|exact (set_via_view_in_relation valid rules)].
 Qed.
-Print Assumptions C30_rejected_leaves_committed_unchanged_partial.
+Print Assumptions C30_rejected_leaves_committed_unchanged.
 
-(* two transactions with any mix of Set and Unset deltas: after both committed (either order: swap the names) every value
-   written by a Set whose path diverges from all later deltas of its own transaction and (for the first one) from all
-   deltas of the second reads back as written *)
+(* two transactions with any mix of Set and Unset deltas (Unset paths may carry match-all sub-keys): after both committed
+   (either order: swap the names) every value written by a Set whose path diverges (pdiverge: differs at a position where
+   both keys are literal; = diverge on literal paths, pdiverge_lit) from all later deltas of its own transaction and (for
+   the first one) from all deltas of the second reads back as written *)
 Theorem C30_commit_order_no_lost_update : forall valid t1 t2 b b1 b2,
   Forall has_path (tx_deltas t1) -> Forall has_path (tx_deltas t2) ->
   tx_commit valid t1 b = Some b1 -> tx_commit valid t2 b1 = Some b2 ->
   (forall ds1 d ds2, tx_deltas t1 = ds1 ++ d :: ds2 -> snd d <> Null ->
-     (forall d', In d' ds2 -> diverge (fst d) (fst d') = true) ->
-     (forall d', In d' (tx_deltas t2) -> diverge (fst d) (fst d') = true) ->
+     (forall d', In d' ds2 -> pdiverge (fst d) (fst d') = true) ->
+     (forall d', In d' (tx_deltas t2) -> pdiverge (fst d) (fst d') = true) ->
      bag_get (fst d) b2 = BOk (strip (snd d))) /\
   (forall ds1 d ds2, tx_deltas t2 = ds1 ++ d :: ds2 -> snd d <> Null ->
-     (forall d', In d' ds2 -> diverge (fst d) (fst d') = true) ->
+     (forall d', In d' ds2 -> pdiverge (fst d) (fst d') = true) ->
      bag_get (fst d) b2 = BOk (strip (snd d))).
 Proof. exact commit_order_no_lost_update_g. Qed.
 Print Assumptions C30_commit_order_no_lost_update.
@@ -125,6 +140,27 @@ Theorem C30_read_after_write_partial : forall rules req v ws ws1 p x ws2 g sp t 
 Proof. exact view_read_after_write_rule. Qed.
 Print Assumptions C30_read_after_write_partial.
 
+(* Get of the SAME request after a Set through several rules - PARTIAL. Proved: for any number of literal rules matched by
+   req, the same rules being readable and writeable for req, and no written storage path touched by a later write of the
+   same Set (so: no nested and no duplicate storage paths - for nested ones see C30_outer_returns_inner), Get of req inside
+   the transaction returns exactly merge_all of the written parts, each put back under its unmatched suffix, in namespace
+   order. Missing for "returns v": the purely tree-level fact that merging the parts of v along suffixes that cover v
+   (the unused-branch check) rebuilds v; rules with unfilled placeholders in the suffix; values with nulls or arrays. *)
+Theorem C30_read_after_write_same_request_merge_partial : forall rules req v ws lms t b,
+  set_writes rules req v = (ROk, ws) -> Forall is_set ws ->
+  matches readable rules req = matches writeable rules req ->
+  literal_matches (matches writeable rules req) = Some lms ->
+  (forall ws1 d ws2, ws = ws1 ++ d :: ws2 -> forall d', In d' ws2 -> is_prefix (fst d) (fst d') = false) ->
+  apply_deltas (tx_pristine t) (tx_deltas t) = Some b ->
+  view_get rules (tx_get (add_deltas t ws)) req =
+  match merge_all (map (fun m => nest (snd m) (strip (xval v m))) (sort_by snd lms)) with
+  | None => VErr RError
+  | Some None => VErr RNotFound
+  | Some (Some r) => VOk r
+  end.
+Proof. exact view_read_after_write_merge. Qed.
+Print Assumptions C30_read_after_write_same_request_merge_partial.
+
 Theorem C30_outer_returns_inner : forall b p q x1 x2, p <> [] -> q <> [] -> x1 <> Null -> x2 <> Null ->
   exists b', apply_deltas b [(p, x1); (p ++ q, x2)] = Some b' /\
              bag_get p b' = BOk (tset q (strip x2) (Some (strip x1))) /\
@@ -177,4 +213,54 @@ Proof. reflexivity. Qed.
 Example ex_schema_reject : set_via_view drv_valid ex_rules [] [97] (Atom 99%Z) = ([], false).
 Proof. reflexivity. Qed.
 Example ex_accept : set_via_view drv_valid ex_rules [] [97] (Atom 1%Z) = ([(112, Atom 1%Z)], true).
+Proof. reflexivity. Qed.
+
+(* Unset through unfilled placeholders: match-all in the middle (emptied objects stay), at the end (the whole level goes),
+   and the decoding error when a scalar is met on the way *)
+Example ex_unset_match_all_middle :
+  bag_unset [112; 1120; 113] [(112, Obj [(99, Obj [(113, Atom 1%Z)]); (100, Obj [(113, Atom 2%Z); (114, Atom 3%Z)])])] =
+  Some [(112, Obj [(99, Obj []); (100, Obj [(114, Atom 3%Z)])])].
+Proof. reflexivity. Qed.
+Example ex_unset_match_all_last :
+  bag_unset [114; 1121] [(112, Atom 0%Z); (114, Obj [(97, Atom 3%Z); (98, Atom 4%Z)])] = Some [(112, Atom 0%Z)].
+Proof. reflexivity. Qed.
+Example ex_unset_scalar_error : bag_unset [112; 1120; 113] [(112, Obj [(100, Atom 5%Z)])] = None.
+Proof. reflexivity. Qed.
+Example ex_unset_paths_placeholder :
+  unset_paths_g [mkRule [Lit 97; Ph 120; Lit 98] [Lit 112; Ph 120; Lit 113] RW] [97] = (ROk, [[112; 1120; 113]]).
+Proof. reflexivity. Qed.
+
+(* the relation: an order-dependent Set has both outcomes; the functional model is an instance elsewhere *)
+Definition ex_od_rules : list rule :=
+  [mkRule [Lit 97; Lit 98] [Lit 112] RW; mkRule [Lit 97; Lit 98; Lit 99] [Lit 113] RW; mkRule [Lit 97; Lit 100] [Lit 114] RW].
+Definition ex_od_value : tree := Obj [(98, Obj [(99, Atom 1%Z)]); (100, Atom 2%Z)].
+Example ex_outcome_rejected : set_outcome ex_od_rules [97] ex_od_value (RBadRequest, []).
+Proof. left. reflexivity. Qed.
+Example ex_outcome_accepted :
+  set_outcome ex_od_rules [97] ex_od_value (ROk, [([112], Obj [(99, Atom 1%Z)]); ([113], Atom 1%Z); ([114], Atom 2%Z)]).
+Proof. right. split; reflexivity. Qed.
+Example ex_od_determined : determined ex_od_rules [97] ex_od_value.
+Proof. left. discriminate. Qed.
+Example ex_rstep_either : forall valid,
+  rstep valid ex_od_rules (mkState [] [mkTx [] []]) (OSet 0 [97] ex_od_value) (mkState [] [mkTx [] []]) (BRes RBadRequest).
+Proof. intros valid. eapply rs_set_rejected; [reflexivity|exact ex_outcome_rejected|discriminate]. Qed.
+(* class (ii) is not empty: the same placeholder name twice in one request pattern *)
+Example ex_undetermined :
+  ~ determined [mkRule [Ph 120; Lit 97; Ph 120] [Ph 120; Lit 114; Ph 120] RW] [100; 97]
+               (Obj [(98, Atom 1%Z); (99, Atom 2%Z)]).
+Proof. intros [H|H]; vm_compute in H; congruence. Qed.
+(* entry point: a rejected and an accepted request *)
+Example ex_via_view_rejected : via_view drv_valid ex_rules [] [97] (Atom 99%Z) ([], false).
+Proof. exists ROk, [([112], Atom 99%Z)]. split; reflexivity. Qed.
+Example ex_via_view_accepted : via_view drv_valid ex_rules [] [97] (Atom 1%Z) ([(112, Atom 1%Z)], true).
+Proof. exists ROk, [([112], Atom 1%Z)]. split; reflexivity. Qed.
+
+(* Get of the same request through two rules: the merge of the written parts is the value itself *)
+Definition ex_two : list rule := [mkRule [Lit 97; Lit 98] [Lit 112] RW; mkRule [Lit 97; Lit 99] [Lit 113] RW].
+Definition ex_two_v : tree := Obj [(98, Atom 1%Z); (99, Obj [(100, Atom 2%Z)])].
+Example ex_two_merge :
+  merge_all (map (fun m => nest (snd m) (strip (xval ex_two_v m))) (sort_by snd [([112], [98]); ([113], [99])])) = Some (Some ex_two_v).
+Proof. reflexivity. Qed.
+Example ex_two_get :
+  view_get ex_two (tx_get (add_deltas (mkTx [] []) (snd (set_writes ex_two [97] ex_two_v)))) [97] = VOk ex_two_v.
 Proof. reflexivity. Qed.
